@@ -69,6 +69,12 @@ func (c *Ctx) effectTable(which, rule string, rr *interp.RunResult, sel func(*in
 		effs := c.bankEffects(which, atoms)
 		matched := ""
 		var why []string
+		// a bank call made on only some of the paths merged into this class is not in the must-set: it cannot
+		// be matched against a case, so it is reported
+		if extra := c.bankEffects(which, r.May); len(extra) > 0 {
+			c.bad(rule, fk, "", "a success return class merges paths of which only some make the bank call "+clip(e.T.String(extra[0]), 160))
+			continue
+		}
 		for _, cs := range cases {
 			env := term.Env{}
 			ok, miss, env2 := c.Holds(e, atoms, env, c.pats(which, m, cs.guards...))
